@@ -37,9 +37,23 @@ def sqlToks : Expr → List Tok'
   | .index e none i => parenT 1 e (sqlToks e) ++ (T .lbrack :: (sqlToks i ++ [T .rbrack]))
   | .index e (some (k, _)) i =>
     parenT 1 e (sqlToks e) ++ (T .lbrack :: ⟨.ident, k.str⟩ :: T .lparen :: (sqlToks i ++ [T .rparen, T .rbrack]))
+  | .caseE o c t ws el =>
+    T .case_ :: (sqlToksO [] o ++ (T .when_ :: (sqlToks c ++ (T .then_ :: (sqlToks t ++ (sqlToksW ws ++
+      (sqlToksO [T .else_] el ++ [T .end_])))))))
+  | .ifE c t e =>
+    T .if_ :: T .lparen :: (sqlToks c ++ (T .comma :: (sqlToks t ++ (T .comma :: (sqlToks e ++ [T .rparen])))))
+  | .array .nil => [T .lbrack, T .rbrack]
+  | .array (.cons e es) => T .lbrack :: (sqlToks e ++ (sqlToksL es ++ [T .rbrack]))
+  | .cast e ns => T .cast :: T .lparen :: (sqlToks e ++ (T .as_ :: (pathToks ns ++ [T .rparen])))
 def sqlToksL : Exprs → List Tok'
   | .nil => []
   | .cons e es => T .comma :: (sqlToks e ++ sqlToksL es)
+def sqlToksW : Whens → List Tok'
+  | .nil => []
+  | .cons c t ws => T .when_ :: (sqlToks c ++ (T .then_ :: (sqlToks t ++ sqlToksW ws)))
+def sqlToksO (pre : List Tok') : OExpr → List Tok'
+  | .none => []
+  | .some e => pre ++ sqlToks e
 end
 
 mutual
@@ -56,10 +70,20 @@ def canonKw : Expr → Expr
   | .sel e n => .sel (canonKw e) n
   | .index e none i => .index (canonKw e) none (canonKw i)
   | .index e (some (k, _)) i => .index (canonKw e) (some (k, k.str)) (canonKw i)
+  | .caseE o c t ws el => .caseE (canonKwO o) (canonKw c) (canonKw t) (canonKwW ws) (canonKwO el)
+  | .ifE c t e => .ifE (canonKw c) (canonKw t) (canonKw e)
+  | .array es => .array (canonKwL es)
+  | .cast e ns => .cast (canonKw e) ns
   | e => e
 def canonKwL : Exprs → Exprs
   | .nil => .nil
   | .cons e es => .cons (canonKw e) (canonKwL es)
+def canonKwW : Whens → Whens
+  | .nil => .nil
+  | .cons c t ws => .cons (canonKw c) (canonKw t) (canonKwW ws)
+def canonKwO : OExpr → OExpr
+  | .none => .none
+  | .some e => .some (canonKw e)
 end
 
 /-- does the model lexer read the printed text `sqlE e` as the tokens `sqlToks e`? (not proved in general: this is
